@@ -333,7 +333,7 @@ class Filler(WidgetDecoration[WrappedWidget]):
         if not hasattr(self._original_widget, "mouse_event"):
             return False
 
-        top, bottom = self.filler_values(size, True)
+        top, bottom = self.filler_values(size, focus)
         if row < top or row >= maxrow - bottom:
             return False
 
